@@ -51,6 +51,9 @@ type Runner struct {
 	Direct bool
 	// NoQuiesce: do not wait for background goroutines after a call (concurrent drivers).
 	NoQuiesce bool
+	// SlowEnum: the enumerate consumer yields between the blobs it receives (the channel is unbuffered, so
+	// the enumerating store is held at its send while other clients run).
+	SlowEnum bool
 }
 
 func (r *Runner) ResetEvent(cfg string) gate.Event {
@@ -443,6 +446,12 @@ func (r *Runner) enumerate(ctx context.Context, after string, limit int) ([]blob
 	var got []blob.SizedRef
 	for sr := range ch {
 		got = append(got, sr)
+		if r.SlowEnum {
+			runtime.Gosched()
+			if len(got)%2 == 1 {
+				time.Sleep(30 * time.Microsecond)
+			}
+		}
 	}
 	return got, <-errc
 }
